@@ -13,7 +13,6 @@ import (
 	"github.com/markkurossi/mpc/compiler/utils"
 	"github.com/markkurossi/mpc/env"
 	"github.com/markkurossi/mpc/ot"
-	"github.com/markkurossi/mpc/p2p"
 	"pgregory.net/rapid"
 
 	"verifharness/internal/ev"
@@ -278,8 +277,7 @@ func run(cs Case) ev.Outcome {
 	want := gen.SplitBits(gc.OutputBits(wires), outWidths)
 
 	d := xport.NewDuplex(cs.FragsGE, cs.FragsEG)
-	gConn := p2p.NewConn(d.A)
-	eConn := p2p.NewConn(d.B)
+	gConn, eConn := d.Conns()
 	cfg := &env.Config{Rand: gen.NewDRBG(cs.Seed, 1)}
 	gOT := makeOT(kind, cs.Seed, 0)
 	eOT := makeOT(kind, cs.Seed, 1)
